@@ -158,7 +158,7 @@ def main():
         "engines": [
             {"name": "coq+correspondence", "path": "/verif/check",
              "serves_properties": sorted(CLAIMS.keys()),
-             "kind_free_text": "Coq 8.16 theorems about executable Gallina models (coq/), extracted to OCaml (ocaml/) and run against the implementation (harness/) on the same inputs; T1 translator tools/gen_consts.py regenerates the constant layer from the Rust source"},
+             "kind_free_text": "Coq 8.16 theorems about executable Gallina models (coq/), extracted to OCaml (ocaml/) and run against the implementation (harness/) on the same inputs; six translators (tools/gen_consts.py, gen_synccell.py, gen_pool.py, gen_chan.py, gen_strun.py, gen_slot.py) regenerate parts of the models from the Rust source on every run; seven verbatim mirrors of lock-free sources (and of the async-event / diatomic-waker crates) run under a deterministic scheduler (harness/atomh)"},
         ],
         "checks": checks,
         "notes": "All checks rebuild from /repo's working tree (cargo path dependency + verbatim source mirror). known_findings.json lists recorded/fixed defects.",
